@@ -4,7 +4,7 @@ func init() {
 	specs["C10"] = &propSpec{
 		ID: "C10", Engine: "kvsim", Level: "exploration",
 		QuickRuns: 8000, ThoroughRuns: 240000, Chunk: 200, WatchdogS: 300,
-		Rule: "one evaluation = one seeded sequential history (10-120 operations: get, set, delete, batch with repeated keys, find over seeded [start,end) incl. empty and inverted bounds, partial iteration then Close, buffer Flush, close+reopen; on leveldb also a whole-range compaction through an injected accessor, so that the table layout goleveldb otherwise changes on its own goroutines is a function of the plan; on sqlite a third of the batches contain one statement made to fail by a trigger installed through a second connection: CommitBatch must report the failure and nothing of the batch may be applied) on one implementation (memory, leveldb, kvfile, sqlite, buffer.New over each, SimKV), every result compared at once with an ordered-map model, plus a closing sweep (full scan, Get of every touched key, close+reopen+full scan); keys stress byte order ('|', ':', 0x00, 0xff, high bytes, prefixes of each other) and keys/values sit at 766/767/768 and 62999/63000/63001 bytes; non-trivial = at least 3 operations; distinct = distinct (implementation, operation-kind sequence)",
+		Rule: "one evaluation = one seeded sequential history (10-120 operations: get, set, delete, batch with repeated keys, find over seeded [start,end) incl. empty and inverted bounds, partial iteration then Close, buffer Flush, close+reopen; on leveldb also a whole-range compaction through an injected accessor, so that the table layout goleveldb otherwise changes on its own goroutines is a function of the plan; on sqlite a third of the batches contain one statement made to fail by a trigger installed through a second connection: CommitBatch must report the failure and nothing of the batch may be applied) on one implementation (memory, leveldb, kvfile, sqlite, buffer.New over each, SimKV), every result compared at once with an ordered-map model, plus a closing sweep (full scan, Get of every touched key, close+reopen+full scan); keys stress byte order ('|', ':', 0x00, 0xff, high bytes, prefixes of each other) and keys/values sit at 766/767/768 and 62999/63000/63001 bytes; non-trivial = at least 3 operations; distinct = distinct (implementation, operation-kind sequence). One run in 40 is wide: 258-1300 rows under one prefix written in batches of 97 (op fill) and scanned, with range boundaries at rows 100, 256 and 257 (an implementation that pages its scans internally meets a second page)",
 		Assume: []string{
 			"mysql, postgres and mongo need a server and are not exercised",
 			"the empty key is generated for the base stores only: buffer.KeyValue uses it as an iterator sentinel and the contract is silent about it",
